@@ -55,6 +55,7 @@ class BatchEvaluator:
         cols = cols.copy()
         cols[failed, sc["nancol"] - 1] = np.nan
         self.table, self.target, self.calls = cols, target, 0
+        self.rw = sc["rw"]
         self.fail_perturbations_of = None
 
     def __call__(self, variables, context):
@@ -69,7 +70,10 @@ class BatchEvaluator:
         if perts is not None and self.fail_perturbations_of is not None:
             # every perturbation of one realization fails: the FUNCTION results of the same call must not notice
             rows[(perts >= 0) & (context.realizations == self.fail_perturbations_of), 0] = np.nan
-        return EvaluatorResult(objectives=rows[:, :2].copy(), constraints=rows[:, 2:].copy())
+        # (the values are small integers: every second scenario hands them over in single precision - what is computed from
+        #  them is double precision all the same)
+        dt = np.float32 if (sum(self.rw) + len(self.rw)) % 2 else np.float64
+        return EvaluatorResult(objectives=rows[:, :2].astype(dt), constraints=rows[:, 2:].astype(dt))
 
 
 def observe(sc, r: FunctionResults | None, outcome, layout):
@@ -92,8 +96,8 @@ def observe(sc, r: FunctionResults | None, outcome, layout):
         return ev
     sq = [v * v if sc["est"][i] == "std" else v for i, v in enumerate(vals)]
     ev["stdneg"] = [bool(sc["est"][i] == "std" and v < 0) for i, v in enumerate(vals)]
-    ev["obj"], ev["con"] = nums(sq[:2]), nums(sq[2:])
-    ev["wobj"] = num(r.functions.weighted_objective)
+    ev["obj"], ev["con"] = nums(sq[:2], tol=1e-9), nums(sq[2:], tol=1e-9)
+    ev["wobj"] = num(r.functions.weighted_objective, tol=1e-9)
     return ev
 
 
